@@ -13,6 +13,17 @@ C13_REQUIRED = ["refund_plain", "refund_in", "refund_out", "refund_many", "refun
 # magnitude tier: antecedents that must be exercised (vacuity) — every stratum of the single amounts, creates /
 # claims / refunds / limit rejections at scale, and limit checks whose operands fit 64 bits while their sum does not
 MAG_STRATA = ["mag_2p31_32", "mag_2p32_53", "mag_2p53_63", "mag_2p63_64", "mag_2p64_65", "mag_2p96", "mag_2p127_129"]
+# negative probing (round 7): antecedents exercised by scenarios/htlc_probe.ndjson (and its epilogue) on every run
+PROBE_REQUIRED_C03 = ["probe_id_upper_ok", "probe_sec_upper_ok", "probe_id_hashlock", "probe_id_prefix", "probe_id_swapped",
+                      "probe_sec_hashlock", "probe_sec_id", "claim_closed_by_recipient", "claim_closed_by_sender",
+                      "claim_closed_by_stranger", "create_dup_open", "create_dup_completed", "create_dup_refunded",
+                      "create_dup_flipped", "create_same_lock_other_amt", "create_shaped_plain_ok", "claim_shaped_plain_ok",
+                      "refund_shaped_plain", "create_zero_rej", "create_to_foreign_escrow_ok",
+                      "claim_to_foreign_escrow_ok", "closing_claim_rej", "probe_tail"]
+PROBE_REQUIRED_C04 = ["htlt_plain_coin_rej", "htlt_shaped_coin_rej", "htlt_shaped_while_supply", "htlt_multicoin_rej",
+                      "create_shaped_plain_ok", "deputy_unsignable", "no_assets_block", "asset_relisted",
+                      "asset_kind_toggled", "limit_at_supply", "window_exact_end", "window_one_before_end",
+                      "available_rej", "closing_claim_rej", "probe_tail"]
 # diagnostic clauses (specification beyond the listed properties; reported, never a verdict)
 DIAGNOSTIC_HTLC = ["X03_CreateRecord", "X04_Admission", "X04_InFlight", "X04_ParamsStored",
                    "X12_HTLC_Queue", "X12_HTLC_ZeroQueue"]
@@ -34,8 +45,14 @@ HTLC_RND = T(
      dict(n=6, len=40, procs=6, cfg="users=3,initbal=60,flood=40,limit1=12")])
 # multi-message transactions (runs of one signer's messages delivered as one real transaction)
 bundled(HTLC_RND)
-HTLC_GEN = T([dict(cfg="GEN_HTLC.cfg", num=8, depth=26, seeds=8)],
-             [dict(cfg="GEN_HTLC.cfg", num=40, depth=30, seeds=14)])
+# second generator mode (round 7, negative probing): GenSpecP = the first mode plus identifiers / coins of the wrong kind
+# (NextP), every behaviour ending with four events the specification REJECTS (a deep state probed with operations that
+# must fail); the replay's epilogue is computed from the real chain state and closes with a claim on every contract
+HTLC_GEN = T([dict(cfg="GEN_HTLC.cfg", num=8, depth=26, seeds=8),
+              dict(cfg="GEN_HTLC_probe.cfg", num=5, depth=26, seeds=4)],
+             [dict(cfg="GEN_HTLC.cfg", num=40, depth=30, seeds=14),
+              dict(cfg="GEN_HTLC_probe.cfg", num=40, depth=30, seeds=10),
+              dict(cfg="GEN_HTLC_probe.cfg", num=40, depth=20, seeds=4)])
 HTLC_SCN = [dict(file="scenarios/htlc_boundary.ndjson", cfg="users=2"),
             dict(file="scenarios/htlc_limits.ndjson", cfg="users=2"),
             dict(file="scenarios/htlc_asset_removed.ndjson", cfg="users=2"),
@@ -52,6 +69,11 @@ HTLC_SCN = [dict(file="scenarios/htlc_boundary.ndjson", cfg="users=2"),
             dict(file="scenarios/htlc_limits.ndjson", cfg="users=2,scales=quick"),
             dict(file="scenarios/htlc_lifecycle.ndjson", cfg="users=2,limit1=8,scales=quick"),
             dict(file="scenarios/htlc_boundary.ndjson", cfg="users=2,scales=quick"),
+            # negative probing / unusual inputs (round 7): every antecedent of PROBE_REQUIRED, on every run — ids and
+            # secrets of the wrong kind on open and closed contracts, re-creation of open / completed / refunded
+            # contracts, transfers in ordinary and asset-SHAPED coins, a module account as deputy, limit = recorded
+            # supply, kind toggled, all assets delisted and listed again, the limit window one second before / at its end
+            dict(file="scenarios/htlc_probe.ndjson", cfg="users=2"),
             # 32 contracts refunded by one begin blocker
             dict(file="scenarios/htlc_dozens.ndjson", cfg="users=3,initbal=20,limit1=8")]
 HTLC_MC = T([dict(cfg="MC_HTLC.cfg", timeout=900, heap="4g"), dict(cfg="MC_HTLC_assets.cfg", timeout=900, heap="4g"),
@@ -87,7 +109,7 @@ PROPS = {
                                  "claim_wrong_secret", "claim_other_ts", "claim_other_contract", "claim_second",
                                  "claim_after_refund", "claim_in_expiry_block", "claim_last_block",
                                  "refund_plain", "refund_in", "refund_out", "refund_many", "create_to_module_rej",
-                                 "scaled_claim", "scaled_refund"] + MAG_STRATA,
+                                 "scaled_claim", "scaled_refund"] + MAG_STRATA + PROBE_REQUIRED_C03,
                        gen_cfg=HTLC_GEN_CFG, assumptions=HTLC_ASSUME),
     "C04": ModuleCheck("htlc", "HTLC.tla", "HTLCTrace.tla", "HTLCTrace.cfg", HTLC_CLAUSES_C04,
                        HTLC_MC, HTLC_GEN, HTLC_RND, scenarios=HTLC_SCN,
@@ -98,7 +120,8 @@ PROPS = {
                                  "inactive_rej", "amount_range_rej", "asset_lock_range_rej", "below_fee_rej",
                                  "changed_inflight", "deputy_changed_inflight", "claim_inactive_ok",
                                  "refund_unsupported", "claim_new_deputy", "dt_zero", "dt_beyond_period",
-                                 "scaled_create_ok", "scaled_limit_rej", "scaled_claim", "scaled_sum64_rej"] + MAG_STRATA,
+                                 "scaled_create_ok", "scaled_limit_rej", "scaled_claim", "scaled_sum64_rej"] + MAG_STRATA
+                                + PROBE_REQUIRED_C04,
                        gen_cfg=HTLC_GEN_CFG, assumptions=HTLC_ASSUME),
 }
 
@@ -121,7 +144,12 @@ TEXT = {
              "blocks are executed for real and logged as one Skip event (specified as the n-fold begin block).  "
              "Finding H1 (F28/F28b, a contract payable to the htlc module account stranded its coins) is fixed by "
              "/repo 20cb755 (module accounts blocked): its scenario stays as a regression, the ghost gh.stranded "
-             "and the exact why = to_escrow attribution stay in place."),
+             "and the exact why = to_escrow attribution stay in place.  Round 7 (negative probing): a second generator "
+             "mode ends every behaviour with four rejected events; ids / secrets of the wrong kind (hash lock as id, "
+             "padded prefix, swapped halves, id or hash lock as secret, upper-case hex), re-creation of open / completed / "
+             "refunded contracts, transfers in ordinary and asset-shaped coins, keyless recipients and deputies; the "
+             "epilogue is computed from the real chain state and closes with a claim on every contract "
+             "(findings/htlc.md, last section)."),
     "C04": dict(
         design="DESIGN.md 8 (C04), 3, 4.2",
         text="Same specification and traces as C03; state clauses after every event (hence at every block boundary): "
